@@ -533,10 +533,10 @@ impl Check for C04 {
         "C04"
     }
     fn decided_by(&self) -> &'static str {
-        "message sizes k*(2^24-1)+d x sequences of write sizes assembling the message x transport write schedule (short writes, EINTR)"
+        "message sizes k*(2^24-1)+d x sequences of write sizes assembling the message x transport write schedule (short writes, EINTR); TLS x row sizes x Interrupted bursts"
     }
     fn rule_text(&self) -> &'static str {
-        "one run = one QUERY or EXECUTE answered with a message of logical length L = k*(2^24-1)+d, k in {1,2,3}, d in [-6,+6]: a text or binary row assembled from 1..6 cells of varied sizes (so the packet layer sees different write-size sequences), a giant ERR message, or a giant column definition; followed by a short row, the terminator and a sentinel PING; transport accepts everything / 1 byte then all / 7,4096,all / 64 KiB / 1 MiB / 2^24-1 / seeded sizes per write, Interrupted at seeded write ops. Oracle: independent packet reader (header length == payload, nothing left over, messages >= 2^24-1 arrive as maximal packets + one shorter, possibly empty, packet), reassembled row decodes to exactly the written cells, following row / terminator / PING reply intact. Every other check's runs also pass the packet reader (rule 'framing'). Distinct = plan signature (k, d via size classes, cell split, write schedule)."
+        "one run = one QUERY or EXECUTE answered with a message of logical length L = k*(2^24-1)+d, k in {1,2,3}, d in [-6,+6]: a text or binary row assembled from 1..6 cells of varied sizes (so the packet layer sees different write-size sequences), a giant ERR message, or a giant column definition; followed by a short row, the terminator and a sentinel PING; transport accepts everything / 1 byte then all / 7,4096,all / 64 KiB / 1 MiB / 2^24-1 / seeded sizes per write, Interrupted at seeded write ops. Oracle: independent packet reader (header length == payload, nothing left over, messages >= 2^24-1 arrive as maximal packets + one shorter, possibly empty, packet), reassembled row decodes to exactly the written cells, following row / terminator / PING reply intact. Every other check's runs also pass the packet reader (rule 'framing'). After the giants: TLS conversations (12 000 quick / 300 000 thorough) with text and binary rows from a few bytes to 500 KB (beyond a TLS record and rustls' 64 KiB send buffer), short writes, and in half of them a burst of 1..3 consecutive transport calls failing with Interrupted after the TLS handshake; whatever the server makes of the burst (retry or give up), what the rustls client decrypts must be a prefix of the well-framed conversation. Distinct = plan signature (k, d via size classes, cell split, write schedule, TLS, faults)."
     }
     fn jobs(&self, tier: Tier) -> u64 {
         // the giants first, then the framing of ordinary and medium-sized messages under TLS
@@ -826,7 +826,7 @@ impl Check for C15 {
         "inputs (Rust integer type x column type x signedness x value): 8-bit types swept completely (quick), 16-bit types swept (thorough), wider types at range bounds/powers of two and uniformly"
     }
     fn rule_text(&self) -> &'static str {
-        "one run = PREPARE + EXECUTE answered by one binary row of integer cells, each written through write_col under catch_unwind with its status (Ok/Err/Panic) logged; must-accept cells (column's logical range contains the whole range of the fixed-width Rust type; for usize/isize: contains the value) are packed many per run, may-refuse cells come last (a refusal ends the run). Oracle: every must-accept cell is Ok; every accepted cell decodes (width and signedness from the advertised column) to the same mathematical integer; a refusal may be Err or panic. Sweeps: (u8,i8) x 12 column kinds x all 256 values in quick, (u16,i16) x 12 x all 65536 values in thorough. Distinct = plan signature."
+        "one run = PREPARE + EXECUTE answered by one binary row of integer cells, each written through write_col under catch_unwind with its status (Ok/Err/Panic) logged; must-accept cells (column's logical range contains the whole range of the fixed-width Rust type; for usize/isize: contains the value) are packed many per run, may-refuse cells come last (a refusal ends the run). Oracle: every must-accept cell is Ok; every accepted cell decodes (width and signedness from the advertised column) to the same mathematical integer; a refusal may be Err or panic. In a quarter of the runs the statement was executed once before, with the same column names and types, the opposite signedness and no rows (nothing remembered from it may change how the probe is advertised or encoded). Sweeps: (u8,i8) x 12 column kinds x all 256 values in quick, (u16,i16) x 12 x all 65536 values in thorough. Distinct = plan signature."
     }
     fn jobs(&self, tier: Tier) -> u64 {
         C15::sweep_jobs(tier)
@@ -1824,7 +1824,7 @@ impl Check for C20 {
         "hostile inputs (grammar-aware mutation of valid conversations, structured inconsistent parameter blocks, short-string sweep, random bytes) under seeded chunking"
     }
     fn rule_text(&self) -> &'static str {
-        "jobs 0..1884 sweep every command payload of length <= 3 over a 12-byte alphabet after a valid handshake; the remaining jobs are seeded: valid conversations with 1..3 structure-aimed byte mutations (header length, sequence id, command byte, ids/counts/flags, truncation, insertion, deletion), EXECUTEs with inconsistent parameter blocks (truncated NULL bitmap / type table / values, unknown type codes, any flag byte, lenenc length lies, types never bound), truncated and unknown commands with any sequence id, malformed handshakes in both layouts, random byte strings <= 64 as whole stream or behind a valid handshake. Oracle: run_on never panics (site = file + message with numbers erased), terminates (operation budget + watchdog), and everything flushed splits into well-formed packets. Distinct = plan signature."
+        "jobs 0..1884 sweep every command payload of length <= 3 over a 12-byte alphabet after a valid handshake; the remaining jobs are seeded: valid conversations with 1..3 structure-aimed byte mutations (header length, sequence id, command byte, ids/counts/flags, truncation, insertion, deletion), EXECUTEs with inconsistent parameter blocks (truncated NULL bitmap / type table / values, unknown type codes, any flag byte, lenenc length lies, types never bound), truncated and unknown commands with any sequence id, malformed handshakes in both layouts, random byte strings <= 64 as whole stream or behind a valid handshake; 1 run in 25 over a transport that accepts no more bytes from a seeded operation on (write returns Ok(0)). Oracle: run_on never panics (site = file + message with numbers erased), terminates (operation budget + watchdog), and everything flushed splits into well-formed packets. Distinct = plan signature."
     }
     fn jobs(&self, tier: Tier) -> u64 {
         match tier {
